@@ -363,6 +363,8 @@ class Script:
             # owned slices / strings and callbacks next to the rejected string (seed C03-g): whatever the wrapper prepared for Rust before
             # it validated must be released again: the callable given by value dies with the call (CBDROP before RET, nothing leaked)
             owning = any(pt[0] in ("oslice", "ostr", "cb") or (pt[0] == "opt" and pt[1][0] in ("oslice", "ostr")) for _, pt in m.params)
+            if sum(1 for _, pt in m.params if pt[0] == "cb") > 1:
+                direct = []          # the order in which a C++ compiler destroys several by-value arguments is its own business
             if direct and r.random() < (0.6 if owning else 0.3 if len(direct) == 1 else 0.5):
                 bad = r.choice(direct)
                 args[bad] = {"data": r.choice([b"\xff", b"ok\xc3", b"\xed\xa0\x80", b"a\x80b", b"\xf4\x90\x80\x80", b"\xc0\xaf"]), "null": False}
